@@ -88,6 +88,15 @@ def run(tier, seed):
     else:
         bound, ns, cap = 3, (2, 3, 4), 6000
     tasks = [(m0, label, s, cfg, n, bound, cap) for (label, s, cfg) in W for n in ns]
+    generic = []
+    if tier != 'quick':
+        # every series of the general alphabet (<= 3 file patches, <= 1 deviation) that spreads over >= 2 files and has >= 2 patches:
+        # N = 2, <= 1 preemption
+        for s in tq.enumerate_series(3, 1, allow_after_failure=1):
+            files = {f for p in s for fp in p.fps for f in fp.files}
+            if len(s) >= 2 and len(files) >= 2:
+                generic.append(s)
+        tasks += [(m0, 'generic: ' + tq.describe_series(s), s, {'backup': 'onfail', 'quiet': True}, 2, 1, 600) for s in generic]
     # sanity of the thread-count argument: N = 16 on the default schedules
     tasks += [(m0, label, s, cfg, 16, 0, 50) for (label, s, cfg) in W[:: (4 if tier == 'quick' else 1)]]
     results = wsweep.pmap(case, tasks)
@@ -120,9 +129,10 @@ def run(tier, seed):
     cov['schedules_with_preemption'] = tot['preempted']
     cov['schedules_where_a_worker_ran_ahead_of_the_failing_patch'] = tot['ran_ahead']
     cov['workloads'] = len(W)
+    cov['generic_workloads'] = len(generic)
     cov['explorations_with_two_or_more_active_workers'] = active
     cov['explorations_with_more_than_one_outcome'] = outcomes_multi
-    cov['per_exploration'] = per
+    cov['per_exploration'] = per if len(per) <= 400 else per[:200] + [{'note': '%d more explorations of generic workloads omitted' % (len(per) - 200)}]
     cov['samples'] = [{'workload': p['workload'], 'threads': p['threads'], 'schedules': p['schedules'], 'distinct_outcomes': p['distinct_outcomes']} for p in per[:6]]
     cov['rule'] = ('for each workload (failure on one worker while others hold later renames/creates/deletes/mode changes; failures on several workers; directory emptied by one worker '
                    'and used by another; backups on/off) and each thread count N in %s: every schedule of the worker threads with at most %d preemptions at the scheduling points '
